@@ -724,4 +724,5 @@ class SQLiteStateBackend(BaseStateBackend[Params, Result]):
     def purge(self) -> None:
         """Clear all state backend data"""
         delete_tables(self.sqlite_db_path, self.tables.all_tables())
+        self._runner_context_cache.clear()
         init_tables(self.sqlite_db_path, self.tables)
